@@ -172,8 +172,13 @@ def jsonable_short(x):
     return json.loads(s) if len(s) < 4000 else s[:4000] + "..."
 
 
-def shrink(prop, ops, model, errclass, budget=150):
-    """greedy delta debugging: drop ops while some mismatch persists"""
+def diff_class(d):
+    """what kind of mismatch a diff string reports (its text up to the first colon)"""
+    return d["diff"].split(":")[0] if d else None
+
+
+def shrink(prop, ops, model, errclass, budget=150, want=None):
+    """greedy delta debugging: drop ops while a mismatch of the same kind persists"""
     cur = list(ops)
     tries = 0
     changed = True
@@ -188,7 +193,7 @@ def shrink(prop, ops, model, errclass, budget=150):
                 d, _, _ = first_diff(prop, cand, model, errclass)
             except Exception:  # noqa: BLE001
                 d = None
-            if d:
+            if d and (want is None or diff_class(d) == want):
                 cur = cand
                 changed = True
     return cur
@@ -254,13 +259,13 @@ def run_check(pid, tier, seed):
         record(ops, ri)
         if not d:
             return
-        small = shrink(prop, ops, model, errclass)
-        d2, _, _ = first_diff(prop, small, model, errclass)
-        d2 = d2 or d
         for k in kf:
-            if re.search(k["match"], d2["diff"]):
+            if re.search(k["match"], d["diff"]):
                 known_hits.append(k)
                 return
+        small = shrink(prop, ops, model, errclass, want=diff_class(d))
+        d2, _, _ = first_diff(prop, small, model, errclass)
+        d2 = d2 or d
         pinned = getattr(prop, "is_pinned", lambda op, diff: True)(d2.get("op"), d2["diff"])
         payload = {"origin": origin, "ops": small, "first_difference": d2, "kernel_mode": info["kernel_mode"],
                    "kind": "pinned observable differs: failing input for the property" if pinned else
